@@ -86,6 +86,7 @@ func ltVariants(tier string) []vsched.Variant {
 	}
 	if tier == "quick" {
 		add(ltCfg{kind: "pong", events: 4}, 6, 100)
+		add(ltCfg{kind: "pong", mode: "exp-lifted", events: 3}, 2, 100)
 		add(ltCfg{kind: "stale", events: 4}, 2, 100)
 		add(ltCfg{kind: "connexp-client", events: 4}, 4, 100)
 		for _, m := range []string{"none", "extend", "expired"} {
@@ -99,6 +100,7 @@ func ltVariants(tier string) []vsched.Variant {
 	}
 	for _, frac := range []int64{0, 250 * vMs} {
 		add(ltCfg{kind: "pong", events: 5, frac: frac}, 6, 280)
+		add(ltCfg{kind: "pong", mode: "exp-lifted", events: 4, frac: frac}, 4, 280)
 		add(ltCfg{kind: "stale", events: 5, frac: frac}, 4, 280)
 		add(ltCfg{kind: "connexp-client", events: 5, frac: frac, wide: true}, 7, 280)
 		for _, m := range []string{"none", "extend", "expired"} {
@@ -256,6 +258,10 @@ func (w *ltWorld) setup() {
 			return ConnectReply{}, ErrorPermissionDenied
 		}
 		r := ConnectReply{Credentials: &Credentials{UserID: "u"}}
+		if cfg.kind == "pong" && cfg.mode == "exp-lifted" {
+			// the connection starts with an expiry (its expire timer op is pending) ...
+			r.Credentials.ExpireAt = w.unix() + 12
+		}
 		if strings.HasPrefix(cfg.kind, "connexp") {
 			r.Credentials.ExpireAt = w.unix() + ltTTL
 			r.ClientSideRefresh = clientSide
@@ -342,6 +348,15 @@ func (w *ltWorld) setup() {
 		panic("livetimers: connect refused")
 	}
 	vsched.WaitIdle()
+	if cfg.kind == "pong" && cfg.mode == "exp-lifted" {
+		// ... which the application lifts right away (Refresh without an expiration): from here on it
+		// is an ordinary non-expiring connection and pings / no-pong detection must go on as before,
+		// also after the pending expire op has fired
+		if err := w.cl.c.Refresh(); err != nil {
+			panic(err)
+		}
+		vsched.WaitIdle()
+	}
 	if strings.HasPrefix(cfg.kind, "subexp") {
 		if cfg.mode == "srvsub" {
 			w.exp.exp = w.unix() + ltTTL
